@@ -85,7 +85,11 @@ def action (tb : Tables) (st : LState) (r : Rule) (lexeme : List Char) : String 
       let v' := String.ofList (stripWs lexeme)
       let (ty, st') := classifyIdent tb st v'
       (ty, v', true, st')
-  | "t_iselector_t_eclose" | "t_iselector_t_colon" | "t_mediaquery_t_bopen" | "t_import_t_semicolon" | "t_parn_t_pclose"
+  | "t_iselector_t_eclose" =>
+      -- the quote that ends `~".col-@{i}"`: leaves the selector state and the escaped-string state below it
+      let st1 := pop st
+      (r.type, v, true, if st1.cur == "escapequotes" || st1.cur == "escapeapostrophe" then pop st1 else st1)
+  | "t_iselector_t_colon" | "t_mediaquery_t_bopen" | "t_import_t_semicolon" | "t_parn_t_pclose"
   | "t_escapequotes_t_eclose" | "t_escapeapostrophe_t_eclose" | "t_istringquotes_t_isclose" | "t_istringapostrophe_t_isclose" =>
       (r.type, v, true, pop st)
   | "t_iselector_t_ws" => (r.type, " ", true, pop st)
